@@ -49,6 +49,16 @@ type FuncSpec struct {
 	File      string
 	Line      int
 	SSAName   string
+	Behavior  string // contract case (ACSL-style behavior): "" for the default one
+	NoSafety  bool   // panics end the path instead of being obligations (termination-only behaviors)
+}
+
+// Key identifies the contract case: the SSA name, plus "@behavior" for a named one.
+func (s *FuncSpec) Key() string {
+	if s.Behavior == "" {
+		return s.SSAName
+	}
+	return s.SSAName + "@" + s.Behavior
 }
 
 func (s *FuncSpec) HasContract() bool {
@@ -397,7 +407,7 @@ func shortFn(fn *ssa.Function) string {
 // useContract replaces a call of fn by its contract: requires are proved,
 // assigned locations havocked, ensures assumed.
 func (x *Exec) useContract(fr *Frame, fn *ssa.Function, sp *FuncSpec, args []Value, pos token.Pos) Value {
-	h := x.P.harnessOf[fnName(fn)]
+	h := x.P.harnessOf[sp.Key()]
 	x.usedSpecs[fnName(fn)] = true
 	if sp.Trusted {
 		x.assumedCtr[fnName(fn)] = true
